@@ -175,9 +175,16 @@ func (fl *File) Position(idx Idx) *Position {
 	position.Column = offset - lineStart + 1
 
 	if fl.sm != nil {
-		if f, _, l, c, ok := fl.sm.Source(position.Line, position.Column); ok {
-			position.Filename, position.Line, position.Column = f, l, c
-		}
+		func() {
+			// A source map that names a source it does not list makes the
+			// consumer index out of range: keep the generated position then.
+			defer func() {
+				_ = recover() //nolint:errcheck
+			}()
+			if f, _, l, c, ok := fl.sm.Source(position.Line, position.Column); ok {
+				position.Filename, position.Line, position.Column = f, l, c
+			}
+		}()
 	}
 
 	return position
